@@ -18,6 +18,8 @@ const selfTestSrc = `package zzselftest
 
 import (
 	"errors"
+	"io"
+	"net"
 	"sync"
 	"time"
 
@@ -207,6 +209,137 @@ func OkE6dRange(m *mangos.Message) (n int) {
 	}
 	return
 }
+
+// ---- E5 through a variable captured by a deferred closure
+type sink interface {
+	SendMsg(*mangos.Message) error
+}
+
+func BadE5DeferredClosure(q chan *mangos.Message, stop chan struct{}, s sink) {
+	var m *mangos.Message
+	defer func() {
+		m.Free()
+	}()
+	for {
+		select {
+		case <-stop:
+			return
+		case m = <-q:
+		}
+		if err := s.SendMsg(m); err != nil {
+			return
+		}
+	}
+}
+
+func OkE5Loop(q chan *mangos.Message, stop chan struct{}, s sink) {
+	for {
+		var m *mangos.Message
+		select {
+		case <-stop:
+			return
+		case m = <-q:
+		}
+		if err := s.SendMsg(m); err != nil {
+			m.Free()
+			return
+		}
+	}
+}
+
+// ---- E11 closer leak
+type L struct {
+	l     net.Listener
+	ready bool
+}
+
+func (x *L) BadE11Leak(addr string) error {
+	l, err := net.Listen("tcp", addr)
+	if err != nil {
+		return err
+	}
+	if !x.ready {
+		return errors.New("not configured")
+	}
+	x.l = l
+	return nil
+}
+
+func (x *L) OkE11Closed(addr string) error {
+	l, err := net.Listen("tcp", addr)
+	if err != nil {
+		return err
+	}
+	if !x.ready {
+		_ = l.Close()
+		return errors.New("not configured")
+	}
+	x.l = l
+	return nil
+}
+
+func (x *L) OkE11StoredFirst(addr string) (err error) {
+	x.l, err = net.Listen("tcp", addr)
+	if err != nil {
+		return
+	}
+	return nil
+}
+
+// ---- round-8 rules: requeue, publish order, complete read
+type Q struct {
+	q     chan *mangos.Message
+	other chan *mangos.Message
+}
+
+func (x *Q) BadRequeue() {
+	m := <-x.q
+	select {
+	case x.q <- m:
+	default:
+		m.Free()
+	}
+}
+
+func (x *Q) OkForward() {
+	m := <-x.q
+	select {
+	case x.other <- m:
+	default:
+		m.Free()
+	}
+}
+
+type P struct {
+	ready chan struct{}
+	peer  *P
+}
+
+func BadPublish(a, b *P) {
+	close(a.ready)
+	a.peer = b
+}
+
+func OkPublish(a, b *P) {
+	a.peer = b
+	close(a.ready)
+}
+
+func BadShortRead(r io.Reader, n int) ([]byte, error) {
+	b := make([]byte, n)
+	if _, err := io.ReadFull(r, b); err != nil && err != io.EOF {
+		return nil, err
+	}
+	return b, nil
+}
+
+func OkFullRead(r io.Reader, n int) ([]byte, error) {
+	b := make([]byte, n)
+	if _, err := io.ReadFull(r, b); err != nil {
+		return nil, err
+	}
+	return b, nil
+}
 `
 
 const selfTestRel = "internal/zzselftest"
@@ -286,6 +419,28 @@ func runSelfTests(verifDir string) SelfTestResult {
 		fn := o.Key[:cut]
 		add(fn, kind)
 	}
+	{
+		r8 := NewReport("SELF", "selftest")
+		self := func(rel string) bool { return rel == selfTestRel }
+		closerLeaks(p, r8, "e11", self)
+		noRequeue(p, r8, "requeue", self)
+		publishOrder(p, r8, "publish", self)
+		completeReadFatal(p, r8, "read", self)
+		for _, o := range r8.Obs {
+			if o.Status == Discharged {
+				continue
+			}
+			j := strings.Index(o.Key, selfTestRel+".")
+			if j < 0 {
+				continue
+			}
+			name := o.Key[j+len(selfTestRel)+1:]
+			if i := strings.Index(name, "/"); i >= 0 {
+				name = name[:i]
+			}
+			add("x."+name, o.Rule)
+		}
+	}
 	want := map[string]string{
 		"badE1HeldAtReturn":      "E1/held-at-return",
 		"badE1Double":            "E1/double-lock",
@@ -298,8 +453,13 @@ func runSelfTests(verifDir string) SelfTestResult {
 		"BadE5WriteBeforeUnique": "E5/write-before-unique",
 		"SendMsg":                "E5/release-on-error", // badSender (okSender shares the name: see below)
 		"BadE6d":                 "E6d/unbounded",
+		"BadE5DeferredClosure":   "E5/double-release",
+		"BadE11Leak":             "e11",
+		"BadRequeue":             "requeue",
+		"BadPublish":             "publish",
+		"BadShortRead":           "read",
 	}
-	silent := []string{"okE1Defer", "OkE3Read", "OkE3bRecheck", "OkCondWait", "OkE5Once", "OkE5UniqueThenWrite", "OkE6d", "OkE6dRange", "SetN", "Close", "NewT"}
+	silent := []string{"okE1Defer", "OkE3Read", "OkE3bRecheck", "OkCondWait", "OkE5Once", "OkE5UniqueThenWrite", "OkE6d", "OkE6dRange", "SetN", "Close", "NewT", "OkE5Loop", "OkE11Closed", "OkE11StoredFirst", "OkForward", "OkPublish", "OkFullRead"}
 	var names []string
 	for k := range want {
 		names = append(names, k)
